@@ -166,6 +166,13 @@ def one_case(ctx, index: int, rng: random.Random):
         same_for_all = True
     if wts is not None:
         kwargs["weights"] = np.asarray(wts) if rng.random() < 0.7 else list(wts)
+        if not general:
+            if wkind == "int" and rng.random() < 0.5:
+                wts = [w_ * 12 for w_ in wts]  # single weights fit int8 / uint8, their squares and sums do not
+                kwargs["weights"] = np.asarray(wts)
+            nw_, ndt_ = gen.narrow_weights(rng, wts, p=0.3)
+            if nw_ is not None:
+                kwargs["weights"], wkind = nw_, f"{wkind}:{ndt_}"
     names = [f"ax{chr(97 + i)}" for i in range(d)]
     if rng.random() < 0.5 and form in ("h", "h3_rows"):
         kwargs["axis_names"] = names
